@@ -1429,3 +1429,20 @@ Proof.
   - rewrite IH at 1. rewrite app_assoc. rewrite (app_assoc _ _ (c :: _)).
     apply Permutation_middle.
 Qed.
+
+(* the root of every (pseudo) stacking context: inside its group effects, its
+   background and border, then all its content, then its outline first among
+   the outlines of step 10 *)
+Lemma spec_ctx_root_shape forms_ctx level zsort n real b :
+  exists content outlines,
+    spec_ctx forms_ctx level zsort (S n) real b =
+      wrap EOpacity (bopac (binfo_of b)) (bid (binfo_of b))
+        (wrap ETransform (btrans (binfo_of b) && css_transformable (bkind (binfo_of b))) (bid (binfo_of b))
+           ((if css_paints_box_decoration (bkind (binfo_of b))
+             then [Bg (bid (binfo_of b)); Border (bid (binfo_of b))] else [])
+            ++ wrap EClip (bclip (binfo_of b) && negb (is_page (bkind (binfo_of b)))) (bid (binfo_of b)) content
+            ++ Outline (bid (binfo_of b)) :: outlines)).
+Proof.
+  destruct b as [i cs]. cbn [spec_ctx]. cbv zeta. cbn [flow_all map binfo_of].
+  eexists. eexists. reflexivity.
+Qed.
